@@ -53,6 +53,8 @@ type interpreter struct {
 	extCache           map[*ssa.Function]externalFn
 	extMiss            map[*ssa.Function]bool
 	bypass             *ssa.Function // call the real body of this intercepted function once
+	vfs                map[string]value // harness file table (vrt.WriteFile), per path
+	cwd                string
 	summaries          map[*ssa.Function]*fnSummary
 	inSummary          bool
 }
